@@ -55,6 +55,21 @@ type StoreAlphabet struct {
 }
 
 // DefaultAlphabet is the alphabet of DESIGN.md C12.
+// RealisticAlphabet uses ids the way they occur in production: 128-hex node
+// ids (also in upper case and with a 0x prefix: to a store these are three
+// different ids) and checksummed wallet addresses, two of which share their
+// first twelve characters.
+func RealisticAlphabet() StoreAlphabet {
+	a := DefaultAlphabet()
+	h1 := NewIdentity("alphabet-node", 1).NodeID
+	h2 := NewIdentity("alphabet-node", 2).NodeID
+	a.Nodes = []string{h1, strings.ToUpper(h1), "0x" + h1, h2, "0x" + h2, "n1"}
+	w1 := NewIdentity("alphabet-wallet", 1).Wallet
+	w2 := w1[:12] + NewIdentity("alphabet-wallet", 2).Wallet[12:]
+	a.Accounts = []string{w1, w2, strings.ToLower(w1)}
+	return a
+}
+
 func DefaultAlphabet() StoreAlphabet {
 	return StoreAlphabet{
 		Nodes:    []string{"n1", "n2", "n3", "n4", "", "x:y"},
